@@ -42,7 +42,9 @@ func l(name string, keys []string, ch ...*Node) *Node {
 	sort.Strings(k)
 	return &Node{Name: name, Kind: List, Keys: k, Children: ch}
 }
-func lf(name, typ string, width int) *Node { return &Node{Name: name, Kind: Leaf, Type: typ, Width: width} }
+func lf(name, typ string, width int) *Node {
+	return &Node{Name: name, Kind: Leaf, Type: typ, Width: width}
+}
 func ll(name, typ string, width int) *Node {
 	return &Node{Name: name, Kind: LeafList, Type: typ, Width: width}
 }
